@@ -174,6 +174,36 @@ theorem update_spec (s : Sketch α) (x : α) (hs : Inv c S s) (hx : c.nan x = fa
         rw [this]; exact hS.single x
     · simp only [wSketch, hw1]; omega
 
+/-- a run of accepted updates; `R` is any relation between a sketch and the list of items offered so far that is
+preserved by single updates (instantiated later with the min/max/content relation) -/
+theorem updateAll_spec (R : Sketch α → List α → Prop)
+    (hR : ∀ s items x s', Inv c S s → R s items → c.nan x = false → UpdPost c S s x s' → R s' (items ++ [x])) :
+    ∀ (xs : List α) (s : Sketch α) (items : List α), Inv c S s → R s items → (∀ x ∈ xs, c.nan x = false) →
+    Spec (fun s' => Inv c S s' ∧ s'.k = s.k ∧ s'.n = s.n + xs.length ∧ R s' (items ++ xs))
+      (updatesAr s.k s.n xs.length) (wSketch p) (wSketch p s + xs.countP p) (Sketch.updateAll c s xs) := by
+  intro xs
+  induction xs with
+  | nil =>
+    intro s items hs hr _
+    simp only [Sketch.updateAll, List.length_nil, updatesAr, List.countP_nil, Nat.add_zero, List.append_nil]
+    exact Spec.done ⟨hs, rfl, rfl, hr⟩ rfl
+  | cons x t ih =>
+    intro s items hs hr hok
+    have hx : c.nan x = false := hok x (by simp)
+    have ht : ∀ y ∈ t, c.nan y = false := fun y hy => hok y (by simp [hy])
+    simp only [Sketch.updateAll, List.length_cons, updatesAr]
+    have h1 := update_spec c p hS s x hs hx
+    refine (Spec.bind (h1.add_const (t.countP p)) ?_).congr rfl ?_
+    · intro s' hs'
+      obtain ⟨hinv, hk', hn', _, _, _⟩ := id hs'
+      have h2 := ih s' (items ++ [x]) hinv (hR s items x s' hs hr hx hs') ht
+      refine (h2.weaken ?_).congr (by rw [hk', hn']) (by omega)
+      intro s'' h''
+      obtain ⟨c1, c2, c3, c4⟩ := h''
+      refine ⟨c1, by rw [c2, hk'], by rw [c3, hn']; omega, ?_⟩
+      simpa using c4
+    · simp only [List.countP_cons]; omega
+
 end
 
 end DS.Quantiles
